@@ -48,7 +48,7 @@ def Target.stripped : Target → Target
   | t => t
 
 structure DMacro where
-  params : List Name
+  params : List Param
   dirs : List Dir
   target : Target
   deriving Repr, Inhabited
@@ -91,15 +91,6 @@ def dlook (loc : Env) (st : DSt) (n : Name) : Val :=
   | none => (st.glob.look? n).getD .undef
 
 def Dir.docIdx (d : Dir) : Nat := indexIn docOrder d.name
-
-/-- bind macro parameters positionally; a missing argument has no default
-    (`None.evaluate` → AttributeError), surplus arguments are dropped -/
-def bindParams : List Name → List Val → Except Err Env
-  | [], _ => .ok []
-  | _ :: _, [] => .error .attribute
-  | p :: ps, v :: vs => do
-      let rest ← bindParams ps vs
-      pure ((p, v) :: rest)
 
 /-- does this `py:when` match?  (`c` is the innermost choose, not yet matched) -/
 def whenMatches (look : Name → Val) (c : Choice) (e : Option Expr) : Except Err Bool :=
@@ -166,7 +157,7 @@ def doc : Nat → DTask → Env → DSt → DRes
       let fv ← eval (dlook loc st) f
       let vs ← evalArgs (dlook loc st) args
       let m ← getDMacro st fv
-      let scope ← bindParams m.params vs
+      let scope ← bindParams (dlook loc st) m.params vs
       doc n (.dirs m.dirs m.target) (scope ++ loc) st
   | n + 1, .dirs [] (.elem tag attrs kids), loc, st =>
       wrapOut (startEv tag attrs) (endEv tag) (doc n (.nodes kids) loc st)
